@@ -65,6 +65,7 @@ class K:
     def sm(a):
         return a
 '''
+FIXTURE += "".join(f"\ndef h{i:02d}(p{i:02d}):\n    return p{i:02d}\n" for i in range(24))
 PKG_INIT = "class Top:\n    pass\n"
 PKG_SUB = "class Deep:\n    pass\n\nclass Deeper(Deep):\n    pass\n"
 CFG = '''
@@ -162,6 +163,25 @@ def build_scenario(rnd, fx, idx):
         traces.append(CallTrace(fx.f0, {"a": get_type(shapes[0], 3), "b": int}, type(None)))
         traces.append(CallTrace(fx.f1, {"a": get_type(shapes[1], 3)}, type(None)))
         traces.append(CallTrace(fx.K.m, {"a": get_type(shapes[2], 3), "b": str}, int))
+    if idx % 6 == 5:
+        # many anonymous TypedDicts alive and freed within one stub generation: three dict parameters of one function (distinct
+        # class names), several shapes each, default rewriter
+        k, rewrite = 3, True
+        traces = [t for t in traces if not any("TypedDict" in repr(a) for a in list(t.arg_types.values()) + [t.return_type])]
+        shapes = {"a": [{"host": "h"}, {"host": "h", "port": 1}, {"port": 2}],
+                  "b": [{"x": 1.5}, {"x": 1.5, "y": None}, {"y": "s", "z": 1}],
+                  "c": [{"name": "n", "tags": [1]}, {"name": "n"}, {"tags": ["t"], "id": 7}]}
+        for i in range(rnd.choice([3, 4, 6])):
+            traces.append(CallTrace(fx.f2, {n: get_type(rnd.choice(shapes[n]), 3) for n in ("a", "b", "c")},
+                                    get_type(rnd.choice(shapes["b"]), 3)))
+        traces.append(CallTrace(fx.K.m, {"a": int, "b": str}, type(None)))
+        # ... and a LARGE module: two dozen functions, each with its own dict parameter seen in two shapes (many anonymous
+        # TypedDicts are built and freed while one stub is generated)
+        for i in range(24):
+            fn = getattr(fx, f"h{i:02d}")
+            pn = f"p{i:02d}"
+            traces.append(CallTrace(fn, {pn: get_type({f"id{i:02d}": i, f"note{i:02d}": "n"}, 3)}, type(None)))
+            traces.append(CallTrace(fn, {pn: get_type({f"id{i:02d}": i}, 3)}, type(None)))
     if directed:
         for c in (fx.B1, fx.B2, fx.B3, fx.C1, fx.C2, fx.C3):
             traces.append(CallTrace(fx.f1, {"a": c}, type(None)))
@@ -290,9 +310,16 @@ def run(ctx):
                 r = CallTraceRow.from_trace(t)
                 keys.add((r.module, r.qualname, r.arg_types, r.return_type, r.yield_type))
             sc["limit"] = len(keys) + 2          # just above the number of distinct rows; every presentation uses it
+            sc["truncating"] = (i % 5 == 2 and len(keys) > 4)
+            if sc["truncating"]:
+                # fewer rows than there are distinct traces: WHICH ones come back may depend on their dates (by design of
+                # the query) but not on the order in which rows of one day were inserted
+                sc["limit"] = len(keys) - 2
             scen.append(sc)
             for j, pres in enumerate(presentations(rnd, sc["traces"])):
                 name, batches = pres[0], pres[1]
+                if sc["truncating"] and name == "runs_on_different_days":
+                    continue
                 days = pres[2] if len(pres) > 2 else [None] * len(batches)
                 db = os.path.join(work, f"s{i}_{j}.sqlite3")
                 for b, day in zip(batches, days):
@@ -339,6 +366,8 @@ def run(ctx):
                         continue
                     dn = coq_bool(q == "f0" and n == "b")          # the only parameter of the fixture with a None default
                     positions.append(f"(PosIn {coq_str(q)} {coq_str(n)} {dn} {coq_list(common.reify_type(t, ct) for t in tl)})")
+                if sc.get("truncating"):
+                    positions = []       # the reference stub saw only `limit` of the distinct rows: no model comparison
                 refs[i] = (s, positions, amb, out)
                 dist["positions_modelled"] += len(positions)
                 dist["ambiguous_scenarios"] += amb
